@@ -178,11 +178,9 @@ theorem part_read_default_chunk (fl : Flavor) (m : UMesh) (hw : WellFormed m = t
   rw [hh] at hp ⊢
   rw [← hdrOf_normalize] at hp ⊢
   simp only [hdrOf_getD0] at hp ⊢
-  have hsmall : ¬ (((normalize m).nodes.length : Int) + (np : Int) ≥ 2 ^ 63 ∨
-      ((normalize m).nodes.length : Int) ≤ -(2 ^ 63 : Int)) := by
-    have := ((wf_iff _).1 hwn).1
-    omega
-  rw [if_neg hsmall] at hp ⊢
+  have hsmall : partHeaderHazard np (hdrOf (normalize m)) = false := partHeaderHazard_wf _ hwn np hnp2
+  rw [hsmall] at hp ⊢
+  simp only [Bool.false_eq_true, if_false] at hp ⊢
   cases hv : rdVerts fl (((normalize m).nodes.length : Int)).toNat ((encodeUgrid fl m).drop (7 * fl.ibytes)) with
   | error e => rw [hv] at hp; simp at hp
   | ok p =>
